@@ -70,6 +70,18 @@ func genName(r *common.Rand, top bool) xml.Name {
 func genElement(r *common.Rand, depth int, top bool, big int) []xml.Token {
 	name := genName(r, top)
 	start := xml.StartElement{Name: name, Attr: genAttrs(r, name, top)}
+	if !top && name.Space != "" && r.Chance(1, 3) {
+		// the RAW spelling of the same element (as xmlstream.Wrap-based payloads and
+		// Decoder.RawToken produce it): no namespace in the name, an xmlns attribute instead;
+		// children without a namespace of their own then live in that namespace
+		var as []xml.Attr
+		for _, a := range start.Attr {
+			if !(a.Name.Space == "" && a.Name.Local == "xmlns") {
+				as = append(as, a)
+			}
+		}
+		start = xml.StartElement{Name: xml.Name{Local: name.Local}, Attr: append([]xml.Attr{{Name: xml.Name{Local: "xmlns"}, Value: name.Space}}, as...)}
+	}
 	toks := []xml.Token{start}
 	n := r.Intn(4)
 	if depth >= 3 {
